@@ -14,7 +14,7 @@ import (
 // Generators --------------------------------------------------------------------------------------
 
 var (
-	segs     = []string{"docs", "api", "v1", "ui", "d.x", "swagger.json", "spec", "Docs", "a b", "ü"}
+	segs     = []string{"docs", "api", "v1", "ui", "d.x", "swagger.json", "spec", "Docs", "a b", "ü", "d" + rawFF + "cs"} // the last one: a byte that is not UTF-8
 	methods  = []string{"GET", "GET", "GET", "POST", "HEAD", "PUT", "DELETE", "OPTIONS", "PATCH"}
 	metaTail = []string{`"`, `<script>alert(1)</script>`, `' onload='y`, `&b`, `</title><b>`, `{{.Title}}`, `\`, "`", `"><script>`, `&amp;`, `<!--`, "\n<x>", `+`, `</script><i>`, `'`, `<`, `>`, `&`, `&#34;`, ` x="y"`, `';alert(1);'`, `<`, `-->`}
 	plain    = []string{"Title", "My API", "ü", "a+b", "{{.Title}}", "x\\y", "tab\there"}
@@ -98,6 +98,9 @@ func genRel(t *rapid.T, label string) string {
 		return rapid.SampledFrom(segs).Draw(t, label) + "/" + rapid.SampledFrom(segs).Draw(t, label+"2")
 	case 6:
 		return "../" + rapid.SampledFrom(segs).Draw(t, label)
+	case 7:
+		// texts that name the directory itself: under an empty or root base path the document lives at "/"
+		return rapid.SampledFrom([]string{"/", ".", "./", "docs/..", "docs/../../"}).Draw(t, label+"-root")
 	}
 	return rapid.SampledFrom(segs).Draw(t, label)
 }
@@ -230,7 +233,8 @@ var (
 	// spec locations for the API handler: well-formed references only
 	apiSpecURLs = []string{"", "", "/swagger.json", "/dir/sub/doc.json", "https://h.test/dir/doc.json", "http://h.test:8080/spec/openapi.json?x=1", "/api/swagger.json",
 		"/api/docs.json", "/api/v1/docs/swagger.json", `https://h.test/dir/doc.json?x=1&y=<2>`, `/zqS"b.json`, `/zqS'y`, `/zqS<b>.json`, "/a//b.json", "/a/../b.json",
-		"/docs/swagger.json", "/docs", "/api/docs", "swagger.json", "dir/doc.json", "/ü.json", "/doc.json?q='\"", "/zqS&amp;.json", "/docs.json"}
+		"/docs/swagger.json", "/docs", "/api/docs", "swagger.json", "dir/doc.json", "/ü.json", "/doc.json?q='\"", "/zqS&amp;.json", "/docs.json",
+		"/specs/petstore.json#tag/pets", "https://h.test/specs/petstore.json#", "//h.test:8080/specs/petstore.json", "/dir/doc.json?x=1#frag"}
 )
 
 var reTemplate = regexp.MustCompile(`^(/[a-z0-9._~-]+)+$`)
